@@ -108,6 +108,11 @@ def gen_pool(rng, n, avoid=(), seeds=()):
             s = 'q%d_%d' % (len(lst), tries)
         elif seeds and r < 0.25:
             s = rng.choice(seeds)
+        elif r < 0.31:
+            # names that begin like a tag keyword (the lookup code strips 'struct ' etc.)
+            s = rng.choice(['struct', 'union', 'enum']) + rng.choice(
+                ['_', 's', 'ure', 'erate', '_info', '0', 'S', '_t', 'x_t', '_find_t']) + \
+                rng.choice(['', '', rng.choice(alpha)])
         elif lst and r < 0.85:
             s = mutate(rng, rng.choice(lst), alpha)
         else:
@@ -165,6 +170,10 @@ def plan_module(rng, name, mode, hi, avoid=()):
             g[1] = rng.choice(ABI_GK if mode == 'abi' else API_GK)
     typedefs = [[n, i] for i, n in enumerate(tn)]
     sus = [[n, rng.choice(['struct', 'struct', 'union']), i] for i, n in enumerate(sn)]
+    # struct/unions that only have a typedef name (table key '$NAME', realized lazily)
+    anon = [[n, rng.choice(['struct', 'struct', 'union']), i] for i, n in
+            enumerate(gen_pool(rng, logsize(rng, max(2, hi // 2)), set(avoid) | set(ordn),
+                               seeds=tagn))]
     if mode == 'abi' and rng.random() < 0.5:
         # the same spelling in two tables where cffi keeps them apart: macro / typedef and
         # struct tag / enum tag (an API module could not be compiled with these)
@@ -177,7 +186,7 @@ def plan_module(rng, name, mode, hi, avoid=()):
             if kind == 'macro' and n not in tn:
                 typedefs.append([n, len(typedefs)])
     return {'name': name, 'mode': mode, 'globals': glob, 'typedefs': typedefs, 'sus': sus,
-            'enums': enums, 'includes': None, 'shuffle': rng.getrandbits(32)}
+            'anon': anon, 'enums': enums, 'includes': None, 'shuffle': rng.getrandbits(32)}
 
 
 def split_pair(rng, plan, name_a):
@@ -193,7 +202,7 @@ def split_pair(rng, plan, name_a):
          for n, kind, i in plan['globals']]
     a['globals'] = [x for x, k in zip(plan['globals'], g) if k]
     b['globals'] = [x for x, k in zip(plan['globals'], g) if not k]
-    for key in ('typedefs', 'sus'):
+    for key in ('typedefs', 'sus', 'anon'):
         k = pick(plan[key])
         a[key] = [x for x, kk in zip(plan[key], k) if kk]
         b[key] = [x for x, kk in zip(plan[key], k) if not kk]
@@ -228,6 +237,9 @@ def render(plan):
     for n, kw, i in plan['sus']:
         decl.append('%s %s { char f_[%d]; };' % (kw, n, i + 1))
         src.append(decl[-1])
+    for n, kw, i in plan.get('anon', []):
+        decl.append('typedef %s { short h_[%d]; } %s;' % (kw, i + 1, n))
+        src.append(decl[-1])
     random.Random(plan['shuffle']).shuffle(decl)
     return '\n'.join(decl), '\n'.join(src)
 
@@ -235,7 +247,8 @@ def render(plan):
 def lookup_case(rng, plans, others=()):
     """the lookup case through plans[-1]; plans[:-1] are the modules it includes"""
     g = set(n for p in plans for n, k, i in p['globals'])
-    t = set(n for p in plans for n, i in p['typedefs'])
+    t = set(n for p in plans for n, i in p['typedefs']) | \
+        set(n for p in plans for n, kw, i in p.get('anon', []))
     s = set(n for p in plans for n, kw, i in p['sus'])
     e = set(x[0] for p in plans for x in p['enums'])
     og = [n for p in others for n, k, i in p['globals']][:60]
@@ -300,7 +313,8 @@ def do_lookup(st, case):
     own = set(n for n, k, i in top['globals'])
     ntab = {'global': sum(len(p['globals']) for p in plans),
             'typedef': sum(len(p['typedefs']) for p in plans),
-            'su': sum(len(p['sus']) for p in plans), 'enum': sum(len(p['enums']) for p in plans)}
+            'su': sum(len(p['sus']) for p in plans), 'enum': sum(len(p['enums']) for p in plans),
+            'anon': sum(len(p.get('anon', [])) for p in plans)}
 
     def bad(path, what, msg, kind, name):
         rep.bad('%s:%s' % (path, what), '%s module %s (%d globals, %d typedefs, %d struct/unions, '
@@ -375,6 +389,31 @@ def do_lookup(st, case):
             bad('struct', 'undeclared-found', "typeof('%s %s') (declared as %s) -> %s %s" %
                 (other, n, kw, k, v), 'su', n)
 
+    def t_anon(n, kw, i):
+        # typeof() finds the typedef; the fields come from a second, lazy lookup of '$NAME'
+        def f():
+            t = ffi.typeof(rnd.choice(['%s', ' %s', '%s *', '%s[3]']) % n)
+            while t.kind in ('pointer', 'array'):
+                t = t.item
+            how = rnd.choice(['fields', 'new', 'sizeof'])
+            if how == 'new':
+                ffi.new(n + ' *')
+            elif how == 'sizeof':
+                ffi.sizeof(n)
+            fl = t.fields
+            return t.kind, t.cname, [(fn, fd.type.cname) for fn, fd in fl], ffi.sizeof(n)
+        k, v = outcome(f)
+        rep.stat('typedef_only_%s_realized' % kw)
+        if n.startswith(('struct', 'union', 'enum')):
+            rep.stat('typedef_only_name_with_keyword_prefix')
+        want = (kw, n, [('h_', 'short[%d]' % (i + 1))], 2 * (i + 1))
+        if k != 'val':
+            bad('anon-struct', 'declared-not-found', 'fields of typedef-only %s %r -> %s %s' %
+                (kw, n, k, v), 'anon', n)
+        elif v != want:
+            bad('anon-struct', 'wrong-entry', 'typedef-only %s %r realized as %r, its own entry is '
+                '%r' % (kw, n, v, want), 'anon', n)
+
     def t_enum(tag, ens):
         def f():
             t = ffi.typeof('enum ' + tag)
@@ -432,6 +471,7 @@ def do_lookup(st, case):
             tasks.append(('global', n, t_global, (n, kind, i)))
         tasks += [('typedef', n, t_typedef, (n, i)) for n, i in p['typedefs']]
         tasks += [('su', n, t_su, (n, kw, i)) for n, kw, i in p['sus']]
+        tasks += [('anon', n, t_anon, (n, kw, i)) for n, kw, i in p.get('anon', [])]
         tasks += [('enum', tag, t_enum, (tag, ens)) for tag, ens in p['enums']]
     ndecl = len(tasks)
     for kind, lst in sorted(case['absent'].items()):
